@@ -1,0 +1,6 @@
+//go:build !verif
+
+package bondgo
+
+// VerifYield is a verification hook; without the build tag "verif" it does nothing.
+func VerifYield(site string) {}
